@@ -1,1 +1,34 @@
-let () = Glue.run_file Editrun.eval_edit Sys.argv.(1)
+(* c02 runner: the shared edit runner plus the create-fv operation of Model/CreateFv.v
+   (create_fv_region with the repaired size check; the executor emits only whole-block sizes, on
+   which the pinned code is the same function) *)
+open Model
+open Glue
+open Ffsrun
+
+let obs_createfv (img : z list) (off : z) (size : z) (name : z list) : string =
+  let len = List.length img in
+  match parse_bios dec u2s nvar depth (nat_of_int (len + 1)) (z_of_int 240) img Z0 with
+  | Err _ -> "err-parse"
+  | Panic _ -> "panic"
+  | Fuel -> "hang"
+  | Ok (elems, pol) ->
+    (match create_fv_region true pol elems (z_of_int len) off size name with
+     | Err _ -> "err-op 0"
+     | Panic _ -> "panic"
+     | Fuel -> "hang"
+     | Ok elems' ->
+       (match asm_bios enc s2u elems' (z_of_int len) (pol, false) with
+        | Ok ((_, b), _) -> "ok " ^ hex_of_bytes b
+        | Err _ -> "err-save"
+        | Panic _ -> "panic"
+        | Fuel -> "hang"))
+
+let eval fn args : string option =
+  match fn, args with
+  | "createfv", [img; off; size; name] ->
+    table_miss := false; ucs_inexact := false;
+    let o = obs_createfv (bytes_of_hex img) (z_of_hex off) (z_of_hex size) (bytes_of_hex name) in
+    if !table_miss then Some ("codec-table-miss " ^ o) else if !ucs_inexact then None else Some o
+  | _ -> Editrun.eval_edit fn args
+
+let () = Glue.run_file eval Sys.argv.(1)
